@@ -195,7 +195,7 @@ class CHECK(vlib.Check):
                 "GetPulseTimeAux, PulseAux, PutPulseChild, RemovePulseChild, ClearPulseChildren, ~PulseNode, "
                 "PulseNodeManager::CallGetPulseTimeAux/CallPulseAux (incl. its now>=aggregate guard); GetPulseTime()/Pulse() "
                 "are scriptable oracles that may operate on any node from inside the callback. "
-                "Not modelled: cycle-start time / time-slice suggestions, ReflectServer's own event loop (it only calls the two manager entry points per root).")
+                "Not modelled: cycle-start time / time-slice suggestions; ReflectServer's own event loop is not modelled but exercised against the real clock by harness/pulse_srv_h.cpp (it only calls the two manager entry points per root).")
     premises = ["memory safety and object lifetime of the C++ (observed by ASan/UBSan in the harness only)",
                 "theorems reach_inv / recalc_min / recalc_asks / cycle_exact / step_total*: the GetPulseTime() oracle is an arbitrary function of (node, call index, now, previous time) that performs NO operations; reach_inv_safe / recalc_min_safe: it may perform any operations that do not invalidate/detach/re-attach/destroy a node whose own GetPulseTimeAux is running (checked dynamically by the instrumented run_s, which erases to the model); what remains excluded is exactly F16 (C20_reentrant_recalc_refuted, C20_f16_history_refused); no termination claim for GetPulseTime() callbacks that perform operations (two siblings invalidating each other from GetPulseTime() spin forever in the code as well); the Pulse() oracle is arbitrary and may perform any list of invalidate/attach/detach/clear/destroy operations on any nodes (reach_inv, cop_preserves, pulse_never_early_once) except in pulse_exact and step_total where it performs none",
                 "times are uint64: the model clamps an oracle's answer to MUSCLE_TIME_NEVER (= 2^64-1, proved from the translated constant); pulse_exact/cycle_exact take pulse instants below MUSCLE_TIME_NEVER, pulse_exact_gen covers every instant (at MUSCLE_TIME_NEVER never-requests on unscheduled lists do not fire; the harness only corresponds that instant)",
@@ -219,6 +219,39 @@ class CHECK(vlib.Check):
             out.append(("ties", gen_ties(rng)))
         out += [("directed", c) for c in directed()]
         return out
+
+    def build(self):
+        impl, model = super().build()
+        # runtime residue: the scheduler as the real ReflectServer event loop drives it, against the real clock
+        self.srv = vlib.build_harness(name="pulsesrv", src="pulse_srv_h.cpp", san="asan", link_lib=True)
+        return impl, model
+
+    def server_stage(self, ctx):
+        import random
+        replayed = [c for c in ctx["cases"] if c.startswith("S|")]
+        if replayed and len(ctx["cases"]) == len(replayed):
+            cases = replayed
+        else:
+            rng = random.Random(ctx["seed"] * 7919 + 3)
+            n = 16 if ctx["tier"] == "quick" else 80
+            cases = replayed + ["S|%d;%d;%d;%d" % (rng.randrange(1, 10 ** 6), rng.choice([1, 2, 3, 4]), rng.choice([2, 4, 6, 8]),
+                                                  rng.choice([300, 1000, 2500, 4000])) for _ in range(n)]
+        rc, out, err = vlib.run_lines(self.srv, "".join(c + "\n" for c in cases), timeout=600)
+        seen = set()
+        for l in out:
+            sp = l.split(" ", 1)
+            if not sp[0].isdigit():
+                continue
+            k = int(sp[0]); seen.add(k)
+            if len(sp) > 1 and sp[1].startswith("ORACLE FAIL"):
+                ctx["failures"].append({"kind": "oracle", "signature": "server-level: " + sp[1], "case": cases[k],
+                                        "detail": {"case": cases[k], "oracle": sp[1], "side": "impl (real ReflectServer, real clock)"}})
+        missing = [k for k in range(len(cases)) if k not in seen]
+        if rc != 0 or missing:
+            k = missing[0] if missing else len(cases) - 1
+            ctx["failures"].append({"kind": "crash", "signature": "crash: server-level " + vlib.san_summary(err), "case": cases[k],
+                                    "detail": {"case": cases[k], "rc": rc, "stderr": err[-2500:]}})
+        return len(cases)
 
     def extra_stage(self, ctx):
         """Finding F16 may only excuse histories in which a GetPulseTime() callback really touches a node whose own
@@ -244,7 +277,10 @@ class CHECK(vlib.Check):
                     n_unsafe += 1
                 else:
                     f["signature"] = f["signature"].replace("reentrant-recalc", "recalc failure (model gave no safety verdict)")
-        ctx["extra_coverage"] = {"f16_tagged_failures": len(tagged), "f16_tagged_unsafe_per_model": n_unsafe, "f16_tagged_but_safe": n_safe}
+        n_srv = self.server_stage(ctx)
+        ctx["extra_coverage"] = {"f16_tagged_failures": len(tagged), "f16_tagged_unsafe_per_model": n_unsafe, "f16_tagged_but_safe": n_safe,
+                                 "server_level_cases": n_srv,
+                                 "server_level_note": "real in-process ReflectServer on socket pairs with timer trees, real clock; oracle = never early / asked time / asked again / nothing lost / reported wake-up not late (harness/pulse_srv_h.cpp)"}
 
     def nontrivial(self, case):
         body = case.split("|", 1)[1]
